@@ -103,11 +103,11 @@ func (l *Lin) String() string {
 // Con is the constraint  L >= 0.
 type Con struct{ L *Lin }
 
-func GE(a, b *Lin) Con   { return Con{a.Sub(b)} }
-func GT(a, b *Lin) Con   { return Con{a.Sub(b).AddConst(-1)} } // integers
-func LE(a, b *Lin) Con   { return GE(b, a) }
-func LT(a, b *Lin) Con   { return GT(b, a) }
-func EQ(a, b *Lin) []Con { return []Con{GE(a, b), GE(b, a)} }
+func GE(a, b *Lin) Con       { return Con{a.Sub(b)} }
+func GT(a, b *Lin) Con       { return Con{a.Sub(b).AddConst(-1)} } // integers
+func LE(a, b *Lin) Con       { return GE(b, a) }
+func LT(a, b *Lin) Con       { return GT(b, a) }
+func EQ(a, b *Lin) []Con     { return []Con{GE(a, b), GE(b, a)} }
 func (c Con) String() string { return c.L.String() + " >= 0" }
 
 // infeasible decides whether the conjunction of constraints has no rational
@@ -212,19 +212,19 @@ func Entails(facts []Con, goal Con) bool {
 // ---- analysis context -------------------------------------------------------------
 
 type Aff struct {
-	P       *Prog
-	names   map[ssa.Value]string
-	lenName map[ssa.Value]string
-	desc    map[string]string
-	symType map[string]types.Type
-	symLen  map[string]bool
-	memo    map[ssa.Value]*Lin
-	loopInv map[*ssa.Function][]Con
+	P        *Prog
+	names    map[ssa.Value]string
+	lenName  map[ssa.Value]string
+	desc     map[string]string
+	symType  map[string]types.Type
+	symLen   map[string]bool
+	memo     map[ssa.Value]*Lin
+	loopInv  map[*ssa.Function][]Con
 	loopDone map[*ssa.Function]bool
-	ens     map[*ssa.Function]*ensures
-	ensBusy map[*ssa.Function]bool
+	ens      map[*ssa.Function]*ensures
+	ensBusy  map[*ssa.Function]bool
 	factMemo map[*ssa.BasicBlock][]Con
-	nsym    int
+	nsym     int
 	prepared map[*ssa.Function]bool
 	hdrInv   map[*ssa.BasicBlock][]Con
 	busy     map[*ssa.BasicBlock]bool
@@ -233,10 +233,10 @@ type Aff struct {
 	// Assume: facts taken as given at the entry of a function (verified requires clauses).
 	Assume map[*ssa.Function][]Con
 	// LemmaFacts: extra facts valid throughout a function, supplied by reviewed lemmas.
-	LemmaFacts func(a *Aff, fn *ssa.Function) []Con
-	lemmaMemo  map[*ssa.Function][]Con
+	LemmaFacts   func(a *Aff, fn *ssa.Function) []Con
+	lemmaMemo    map[*ssa.Function][]Con
 	resolvingPhi map[*ssa.Phi]bool
-	hitBusy  int
+	hitBusy      int
 	// Equate lets a property identify opaque values (lemmas), e.g. results of a pure helper on the same prefix.
 	Equate func(v ssa.Value) ssa.Value
 }
@@ -752,7 +752,7 @@ func (a *Aff) threadFlag(cond ssa.Value, val bool, d, b *ssa.BasicBlock) []Con {
 		return nil
 	}
 	d = flagBlock(cond) // the block whose phis were fixed by entering from src (d itself, or a dominator)
-	var old []Con // expressed over the values as they were when control left src
+	var old []Con       // expressed over the values as they were when control left src
 	old = append(old, a.FactsAt(src)...)
 	if sif, ok := lastInstr(src).(*ssa.If); ok && len(src.Succs) == 2 && src.Succs[0] != src.Succs[1] {
 		old = append(old, a.condCons(sif.Cond, src.Succs[0] == d)...)
